@@ -101,8 +101,10 @@ def _act(self, out):
         raise SystemExit(3)
     if out == 'kbd':
         raise KeyboardInterrupt
-    if isinstance(out, list) and out[0] == 'raise':
+    if isinstance(out, list) and out[0] in ('raise', 'error'):
         raise ValueError(out[1])
+    if isinstance(out, list) and out[0] == 'fail':
+        self.fail(out[1])
     raise AssertionError('unknown outcome %r' % (out,))
 
 
@@ -149,7 +151,7 @@ def build(modname):
     for tidx, T in enumerate(WORLD['tests']):
         cname = T.get('cls') or ('C%03d' % T['layer'] if T['layer'] is not None else 'CUnit')
         entry = classes.setdefault(cname, {'layer': T['layer'], 'tests': {}})
-        entry['tests']['test_%04d' % tidx] = (tidx, T)
+        entry['tests']['test_%04d%s' % (tidx, T.get('msuffix', ''))] = (tidx, T)
     for cname, entry in classes.items():
         table = entry['tests']
 
